@@ -415,3 +415,115 @@ Theorem C17_restriction_outcome_converse_refuted :
     (forall teq, is_ok (generate r s teq) = false).
 Proof. exact restriction_outcome_converse_refuted. Qed.
 Print Assumptions C17_restriction_outcome_converse_refuted.
+(** ** restriction: descriptions and example validity of retained ids
+    (Proofs/DescribeRestrict.v, Proofs/ExampleRestrict.v; these supersede the remark "not proved:
+    the [describe] / [has_type] clauses" above).  [describe] is the model of
+    [type_description(id, registry, false)] (Model/Describe.v, C13), [has_typeb] decides the typing
+    relation [has_type] of C12 (Model/ExampleValue.v).  Qualified names: both models have a
+    [cache]. *)
+From V Require Model.Describe Model.ExampleValue Proofs.DescribeRestrict Proofs.ExampleRestrict
+  Proofs.ExamplesC17Restrict.
+
+(** [describe] commutes with a renumbering of the registry: the same text (and the same panic);
+    the one error that names an id names the renamed id ([rmap_e pi], Model/Renumber.v) *)
+Theorem C17_describe_renumber :
+  forall pi r, renumbering (N.of_nat (List.length r)) pi ->
+    forall id, V.Model.Describe.describe (renumber pi r) (pi id) =
+               rmap_e pi (fun d : string => d) (V.Model.Describe.describe r id).
+Proof. exact V.Proofs.DescribeRestrict.describe_renumber. Qed.
+Print Assumptions C17_describe_renumber.
+
+(** a successful description in a prefix of a registry is the same successful description in the
+    whole registry (more entries and more fuel never hurt) *)
+Theorem C17_describe_prefix :
+  forall r1 r2 id d,
+    V.Model.Describe.describe r1 id = Ok d -> V.Model.Describe.describe (r1 ++ r2) id = Ok d.
+Proof. exact V.Proofs.DescribeRestrict.describe_prefix. Qed.
+Print Assumptions C17_describe_prefix.
+
+(** C17_restriction (descriptions): the text the restricted registry gives for a retained id
+    [pi id] is the text the full registry gives for [id].  No hypothesis on the registry. *)
+Theorem C17_describe_restriction :
+  forall pi k r id d,
+    renumbering (N.of_nat (List.length r)) pi ->
+    V.Model.Describe.describe (restrict pi k r) (pi id) = Ok d ->
+    V.Model.Describe.describe r id = Ok d.
+Proof. exact V.Proofs.DescribeRestrict.describe_restriction. Qed.
+Print Assumptions C17_describe_restriction.
+
+(** ... and both descriptions exist when the restricted registry is well-formed for descriptions
+    ([wf_descb], the hypothesis of [C13_total]: closed, uniform field lists, no cycle along the
+    edges followed without the in-progress marker) *)
+Theorem C17_describe_restriction_total :
+  forall pi k r id,
+    renumbering (N.of_nat (List.length r)) pi ->
+    V.Model.Describe.wf_descb (restrict pi k r) = true ->
+    (pi id < N.of_nat (List.length (restrict pi k r)))%N ->
+    exists d, V.Model.Describe.describe (restrict pi k r) (pi id) = Ok d /\
+              V.Model.Describe.describe r id = Ok d.
+Proof. exact V.Proofs.DescribeRestrict.describe_restriction_total. Qed.
+Print Assumptions C17_describe_restriction_total.
+
+(** the formatted description ([type_description(id, registry, true)]) *)
+Theorem C17_describe_fmt_restriction :
+  forall pi k r id l,
+    renumbering (N.of_nat (List.length r)) pi ->
+    V.Model.Describe.describe_fmt (restrict pi k r) (pi id) = Ok l ->
+    V.Model.Describe.describe_fmt r id = Ok l.
+Proof. exact V.Proofs.DescribeRestrict.describe_fmt_restriction. Qed.
+Print Assumptions C17_describe_fmt_restriction.
+
+Theorem C17_describe_restriction_satisfiable :
+  exists pi k r id d,
+    renumbering (N.of_nat (List.length r)) pi /\
+    V.Model.Describe.wf_descb (restrict pi k r) = true /\
+    (pi id < N.of_nat (List.length (restrict pi k r)))%N /\
+    (List.length (restrict pi k r) < List.length r)%nat /\
+    pi id <> id /\
+    V.Model.Describe.describe (restrict pi k r) (pi id) = Ok d /\
+    V.Model.Describe.describe r id = Ok d /\
+    d = "enum E<u8>{A(struct Wrap<u8>{v: u8,n: u32}),B{x: u8,c: Compact<u32>}}"%string.
+Proof. exact V.Proofs.ExamplesC17Restrict.describe_restriction_satisfiable. Qed.
+Print Assumptions C17_describe_restriction_satisfiable.
+
+(** typing of values: invariant under renumbering (an equation between the two verdicts) *)
+Theorem C17_has_type_renumber :
+  forall pi r, renumbering (N.of_nat (List.length r)) pi ->
+    forall id v, V.Model.ExampleValue.has_typeb (renumber pi r) (pi id) v =
+                 V.Model.ExampleValue.has_typeb r id v.
+Proof. exact V.Proofs.ExampleRestrict.has_typeb_renumber. Qed.
+Print Assumptions C17_has_type_renumber.
+
+(** C17_restriction (example validity), one direction: a value that the restricted registry types
+    at the retained id [pi id] is an instance of [id] in the full registry; in particular the
+    example generated from the restricted registry.  NOT proved (hence [_partial]): the converse
+    (typed by the full registry => typed by the restricted one; needs closedness of the restricted
+    registry) and that the same word stream yields the same example value on both registries;
+    both are evaluated on every observed (retained id, seed) by [prop_example_retained]. *)
+Theorem C17_has_type_restriction_partial :
+  forall pi k r id v,
+    renumbering (N.of_nat (List.length r)) pi ->
+    V.Model.ExampleValue.has_typeb (restrict pi k r) (pi id) v = true ->
+    V.Model.ExampleValue.has_typeb r id v = true /\ V.Model.ExampleValue.has_type r id v.
+Proof. exact V.Proofs.ExampleRestrict.has_type_restriction_both. Qed.
+Print Assumptions C17_has_type_restriction_partial.
+
+Theorem C17_example_restriction_typed_partial :
+  forall pi k r id ws v,
+    renumbering (N.of_nat (List.length r)) pi ->
+    V.Model.ExampleValue.example_value (restrict pi k r) (pi id) ws = V.Model.ExampleValue.XOk v ->
+    V.Model.ExampleValue.has_type r id v.
+Proof. exact V.Proofs.ExampleRestrict.example_restriction_typed. Qed.
+Print Assumptions C17_example_restriction_typed_partial.
+
+Theorem C17_example_restriction_satisfiable :
+  exists pi k r id ws v,
+    renumbering (N.of_nat (List.length r)) pi /\
+    (List.length (restrict pi k r) < List.length r)%nat /\
+    V.Model.ExampleValue.example_value (restrict pi k r) (pi id) ws = V.Model.ExampleValue.XOk v /\
+    V.Model.ExampleValue.example_value r id ws = V.Model.ExampleValue.XOk v /\
+    V.Model.ExampleValue.has_typeb (restrict pi k r) (pi id) v = true /\
+    V.Model.ExampleValue.has_typeb r id v = true /\
+    match v with V.Model.ExampleValue.VVariant _ _ => True | _ => False end.
+Proof. exact V.Proofs.ExamplesC17Restrict.example_restriction_satisfiable. Qed.
+Print Assumptions C17_example_restriction_satisfiable.
